@@ -7,6 +7,8 @@ CLAIMS = {
  'C15': dict(text='Bounded model checking of the real comparison functions: for every pair/triple of strings up to the stated length and every code-unit value the solver shows agreement with the lexicographic reference order (hence trichotomy, unions, transitivity).',
              note='Bounded: strings <= 4 (quick) / 5 (thorough) units; clang -O1 lowering; ll2c translation (self-checked every run).', ref='6/C15'),
 }
+CLAIMS['C20'] = dict(text='Finite domain covered completely by symbolic variables: every Unicode scalar value through the real encoder, every 4-hex-digit group in both cases, and every \\uXXXX / surrogate-pair escape (with optional neighbours) through the real un-escaper, compared with a reference encoder, for UTF-8/16/32.',
+             note='FixedStream stand-in for the stream parameter; clang -O1 lowering; ll2c translation (self-checked every run).', ref='6/C20')
 NA = {}
 def main():
     props = [json.loads(l)['id'] for l in open(os.path.join(ROOT, 'properties.jsonl'))]
